@@ -165,8 +165,29 @@ Definition w_read (r : wreg) : list Z := w_get_name r ++ [CR].
 (* C04 decoder: ';'-separated items, each ending with CR LF and containing no other LF *)
 Fixpoint ends_crlf (i : list Z) : bool :=
   match i with
-  | [13; 10] => true
-  | x :: r => negb (x =? LF) && ends_crlf r
   | [] => false
+  | x :: r => if zlist_eqb i CRLF then true else negb (x =? LF) && ends_crlf r
   end.
 Definition w_reply_wfb (r : list Z) : bool := forallb ends_crlf (split_on SEMI r) && bytesb r.
+
+(* C05: which commands / lines write register r; the read-back rendering of a stored value *)
+Definition wreg_eqb (a b : wreg) : bool :=
+  match a, b with
+  | RFH, RFH | RFV, RFV | RAH, RAH | RAV, RAV | RRH, RRH | RRV, RRV => true
+  | _, _ => false
+  end.
+Definition w_cmd_writes (r : wreg) (c : list Z) : bool :=
+  match split_on 61 c with
+  | a0 :: _ :: _ => match w_lookup a0 with Some (WSet r') => wreg_eqb r r' | _ => false end
+  | _ => false
+  end.
+Definition w_line_writes (r : wreg) (l : list Z) : bool := existsb (w_cmd_writes r) (split_on SEMI l).
+Definition w_render (cap : list Z -> option (list Z)) (r : wreg) (v : wval) : option (list Z) :=
+  match r with
+  | RFH | RFV => Some (wtext v ++ W_MHZ ++ CRLF)
+  | RAH | RAV => Some (wtext v ++ W_DB ++ CRLF)
+  | RRH | RRV => option_map (fun c => c ++ [46] ++ CRLF) (cap (wtext v))
+  end.
+(* the value a parameter text stores *)
+Definition w_value (fl : list Z -> wfl) (tok : list Z) : option wval :=
+  match fl tok with WFloat rp => Some (WF rp) | WNotFloat => Some (WS (removelast tok)) | WMissing => None end.
